@@ -96,6 +96,15 @@ CHECKS = {
     "C30": ("exploration", "proptest histories with shifting actor tables; remembered-id vs natively-discovered-id differential in every replica, merged and reloaded document",
             "Reads and edits through old ids equal those through fresh ids; absent objects give errors/empties.",
             "Absence is decided by the harness from the decoded make ops.", "3/C30"),
+    "C18": ("exploration", "proptest histories; round-trip oracles over raw/compressed change bytes, expanded changes and bundles; bundle load vs apply differential",
+            "from_bytes(raw)/from_bytes(bytes()) equal change and hash; Change::from(decode()) same bytes; modified expanded changes survive; bundles of generated subsets give byte-identical changes; loading a bundle equals applying its changes.",
+            "An empty message and no message share one encoding and are not distinguished.", "3/C18"),
+    "C27": ("exploration", "proptest prior states x generated targets (strings, nested hydrate values, span lists); target-equality and bulk-vs-call-by-call differential",
+            "update_text, update_object, update_spans, batch_create_object, init_root_from_hydrate, init_from_hydrate, splice with nested values.",
+            "One known finding (texts holding multi-character elements) excluded by signature.", "3/C27"),
+    "C40": ("exploration", "proptest histories with strings in maps/lists; parallel walk of the original and the migrated observation",
+            "Registers with visible strings become one text object holding the highest-id string; everything else identical; one added change iff strings exist.",
+            "Strings inside deleted objects are not visible (fixed defect).", "3/C40"),
 }
 
 PENDING = {}
